@@ -24,7 +24,7 @@ BUDGET = {"quick": (12, 1000, 90), "thorough": (16, 8000, 1200)}
 METHODS = ["shadow", "prio", "rank", "first", "last", "min", "max"]
 PYTEST = True     # thorough tier also runs the repository's own tests under these monitors
 MANDATORY = ["judged:" + m for m in METHODS] + ["judged:input-unchanged"] + ["count:ndim:1", "count:ndim:2:axis0", "count:ndim:2:axis1", "count:ndim:3:axis0",
-                                                 "count:shadow:levels>=20", "count:shadow:out-of-64-bit-scope"]
+                                                 "count:shadow:levels>=20", "count:shadow:out-of-64-bit-scope", "count:rank-or-prio:levels>=64"]
 
 
 def keys2d(M):
@@ -120,6 +120,8 @@ def ref_simple(M, method):
 
 def judge2d(ctx, M, got, method, wit):
     """M levels x columns (python ints), got: list of python ints"""
+    if method in ("prio", "rank") and len({k[0] for k in keys2d(M) if k is not None}) >= 64:
+        ctx.count("count:rank-or-prio:levels>=64")
     if method == "shadow":
         keys = keys2d(M)
         if ideal_top(keys) > 2 ** 63 - 1:
@@ -224,7 +226,17 @@ def gen_case(rng, tier, ctx, i):
                 data[rng.randrange(n)][rng.randrange(n)] = 3
             return {"data": data, "method": "shadow", "axis": 0, "via": "method"}
         data = rng.sample(range(-40, 41), min(n, 70))
-        return {"data": data, "method": rng.choice(["shadow", "prio", "rank"]), "axis": None, "via": "method"}
+        meth = rng.choice(["shadow", "prio", "rank"])
+        if meth != "shadow" and rng.random() < 0.6:
+            # rankings are not subject to the 64-bit proviso: far more than 64 distinct levels
+            k = rng.randint(64, 120)
+            data = [v * rng.choice([1, 1, -1]) for v in rng.sample(range(1, 400), k)] + [0, 0]
+            rng.shuffle(data)
+            if rng.random() < 0.4:
+                w = rng.randint(2, 4)
+                data = [data[i::w][:len(data) // w] for i in range(w)]
+                return {"data": data, "method": meth, "axis": rng.choice([0, 1]), "via": "method"}
+        return {"data": data, "method": meth, "axis": None, "via": "method"}
     def fill(sh):
         if len(sh) == 1:
             return [rng.choice(vals) for _ in range(sh[0])]
